@@ -7,11 +7,13 @@ Line protocol of the Streams subsystem (C19).  The first op of a case opens an o
     open memfixed <hex>      MemoryFixedSizeStream over a buffer with that content
     open file <hex>          FileStream ("r+") over a file with that content
     open ostream <bufsize>   dmlc::ostream over a recording stream
-    open istream <bufsize> <hex>   dmlc::istream over a recording stream holding <hex>
+    open istream <bufsize> <hex0> [<hex1> ...]   dmlc::istream over recording stream 0; stream k holds <hexk>
 
 then `read n | write <hex> | seek p | tell | dump | close` for the three stores,
-`put <hex1> | write <hex> [how] | flush | reattach | oveof | destroy | useek p | udump` for the ostream,
-`get [how] | peek [how] | read n [how] | useek p` for the istream.
+`put <hex1> | write <hex> [how] | flush | reattach | sstream j | oveof | destroy | useek p | udump` for the
+ostream (three recording streams 0..2, stream 0 attached first),
+`get [i|r] | peek [i|r] | read n [i|r] | clear | sstream j | useek p | useekat j p` for the istream
+(`i` = through the std::istream members, with state bits; `r` = through rdbuf()).
 -/
 namespace Driver.Streams
 open DmlcModel DmlcModel.Streams
@@ -22,7 +24,7 @@ inductive St
   | ms (s : MemStr) (dead : Bool)
   | file (s : File) (isOpen : Bool)
   | os (s : OSt) (alive : Bool) (dead : Bool)
-  | is (s : ISt) (dead : Bool)
+  | is (s : IOS) (dead : Bool)
 
 def showErr : Err → String
   | .check => "err:check"
@@ -49,8 +51,9 @@ def parseOp : List String → Option (Op × Nat)
   | ["tell"] => some (.tell, 0)
   | _ => none
 
-def showCalls (cs : List Bytes) : String :=
-  s!"calls {cs.length}" ++ String.join (cs.map fun c => " " ++ hexOrDash c)
+/-- every call of one operation goes to the stream attached when the operation starts -/
+def showCalls (idx : Nat) (cs : List Bytes) : String :=
+  s!"calls {cs.length}" ++ String.join (cs.map fun c => s!" {idx}:" ++ hexOrDash c)
 
 def parseOOp : List String → Option OOp
   | ["put", h] => match bytesOfHex h with
@@ -60,23 +63,43 @@ def parseOOp : List String → Option OOp
   | ["write", h, _] => (bytesOfHex h).map .write
   | ["flush"] => some .flush
   | ["reattach"] => some .reattach
+  | ["sstream", j] => j.toNat?.map .setStream
   | ["oveof"] => some .ovEof
   | ["destroy"] => some .destroy
   | ["useek", p] => p.toNat?.map .useek
   | _ => none
 
-def parseIOp : List String → Option IOp
-  | ["get"] => some .get
-  | ["get", _] => some .get
-  | ["peek"] => some .peek
-  | ["peek", _] => some .peek
-  | ["read", n] => n.toNat?.map .read
-  | ["read", n, _] => n.toNat?.map .read
-  | ["useek", p] => p.toNat?.map .useek
+def parseFOp : List String → Option FOp
+  | ["get", "i"] => some .get
+  | ["get"] => some (.raw .get)
+  | ["get", _] => some (.raw .get)
+  | ["peek", "i"] => some .peek
+  | ["peek"] => some (.raw .peek)
+  | ["peek", _] => some (.raw .peek)
+  | ["read", n, "i"] => n.toNat?.map .read
+  | ["read", n] => n.toNat?.map fun k => .raw (.read k)
+  | ["read", n, _] => n.toNat?.map fun k => .raw (.read k)
+  | ["clear"] => some .clear
+  | ["sstream", j] => j.toNat?.map .setStream
+  | ["useek", p] => p.toNat?.map fun k => .raw (.useek k)
+  | ["useekat", j, p] => match j.toNat?, p.toNat? with
+    | some a, some b => some (.useek a b)
+    | _, _ => none
   | _ => none
 
-def showIState (s : ISt) : String :=
-  s!" br={s.ib.count} g={s.ib.gptr} e={s.ib.egptr} u={s.src.cur}"
+def showIState (s : IOS) : String :=
+  s!" br={s.st.ib.count} g={s.st.ib.gptr} e={s.st.ib.egptr} u={s.st.src.cur} st={(if s.eofbit then 2 else 0) + (if s.failbit then 4 else 0)} a={s.idx}"
+
+def FOp.inRange (n : Nat) : FOp → Bool
+  | .setStream j => j < n
+  | .useek j _ => j < n
+  | _ => true
+
+def allHex : List String → Option (List Bytes)
+  | [] => some []
+  | h :: t => match bytesOfHex h, allHex t with
+    | some b, some r => some (b :: r)
+    | _, _ => none
 
 def step (st : St) (ws : List String) : St × String :=
   match st, ws with
@@ -94,11 +117,14 @@ def step (st : St) (ws : List String) : St × String :=
     | none => (st, "bad-op")
   | .closed, ["open", "ostream", n] =>
     match n.toNat? with
-    | some k => (.os { ob := OBuf.create k, sink := { data := [], cur := 0 } } true false, "ok")
+    | some k => (.os { ob := OBuf.create k, sink := { data := [], cur := 0 }, idx := 0,
+                       parked := List.replicate 3 { data := [], cur := 0 } } true false, "ok")
     | none => (st, "bad-op")
-  | .closed, ["open", "istream", n, h] =>
-    match n.toNat?, bytesOfHex h with
-    | some k, some bs => (.is { ib := IBuf.create k, src := { data := bs, cur := 0 } } false, "ok")
+  | .closed, "open" :: "istream" :: n :: h :: hs =>
+    match n.toNat?, allHex (h :: hs) with
+    | some k, some (bs :: rest) =>
+      (.is { st := { ib := IBuf.create k, src := { data := bs, cur := 0 } }, idx := 0,
+             parked := (bs :: rest).map fun d => { data := d, cur := 0 }, eofbit := false, failbit := false } false, "ok")
     | _, _ => (st, "bad-op")
   -- the three stores
   | .fx _ true, _ => (st, "dead")
@@ -128,22 +154,25 @@ def step (st : St) (ws : List String) : St × String :=
       let r := File.step s op
       (.file r.2 true, showOut r.1 n r.2.pos)
   -- ostream
-  | .os s alive dead, ["udump"] => (.os s alive dead, "bytes " ++ hexOrDash s.sink.data ++ s!" @{s.sink.cur}")
+  | .os s alive dead, ["udump"] =>
+    (.os s alive dead, "bytes" ++ String.join ((s.parked.set s.idx s.sink).map fun a => " " ++ hexOrDash a.data ++ s!" @{a.cur}"))
   | .os s true false, ws =>
     match parseOOp ws with
     | none => (st, "bad-op")
     | some op =>
+      if (match op with | .setStream j => decide (s.parked.length ≤ j) | _ => false) then (st, "bad-op") else
       match s.step op with
       | none => (.os s true true, "ub:oob")
       | some (s1, cs) =>
-        if op = .destroy then (.os s1 false false, showCalls cs ++ " destroyed")
-        else (.os s1 true false, showCalls cs ++ s!" bw={s1.ob.count} pp={s1.ob.pptr}")
+        if op = .destroy then (.os s1 false false, showCalls s.idx cs ++ " destroyed")
+        else (.os s1 true false, showCalls s.idx cs ++ s!" bw={s1.ob.count} pp={s1.ob.pptr} a={s1.idx}")
   | .os _ true true, _ => (st, "dead")
   -- istream
   | .is s false, ws =>
-    match parseIOp ws with
+    match parseFOp ws with
     | none => (st, "bad-op")
     | some op =>
+      if !(FOp.inRange s.parked.length op) then (st, "bad-op") else
       match s.step op with
       | none => (.is s true, "ub:oob")
       | some (s1, .char none) => (.is s1 false, "c eof" ++ showIState s1)
